@@ -54,7 +54,7 @@ def gen(rng, tier):
         if precise:
             cfg.lattice = sg.LATTICE + [1.2345678, 0.1234567891, 3.14159265, 1234567.25, 2.0000001]
         ast = sg.gen_formula(rng, cfg)
-        if sg.size(ast) >= 4 and sg.vars_of(ast) and not (mode == 'on' and common.warmup_visible(ast)):
+        if sg.size(ast) >= 4 and sg.vars_of(ast) and not (mode == 'on' and common.f08_blind(ast)):
             break
     defs, top = sg.modularize(rng, ast, max_subs=3)
     sem, io = None, {}
@@ -153,11 +153,11 @@ def gen(rng, tier):
 
 ENVELOPE_RULES = ['memory-past-above-delayed / partial-function-over-delayed (F08, F08b): a declared constant is a Constant node, its '
                   'literal -2.0 is Negate(Constant); only the latter is delayed by pastify(), and in the F08 region the warm-up of the '
-                  'delayed operand stays visible after the horizon']
+                  'delayed operand stays visible after the horizon; narrowed to unbounded memory (bounded memory: compared from horizon + warmup_extra)']
 
 
 def envelope(sc):
-    return common.warmup_visible(sc['ast']) if sc.get('pastify') else []
+    return common.f08_blind(sc['ast']) if sc.get('pastify') else []
 
 
 def modular_desc(sc):
@@ -314,7 +314,8 @@ def run(sc):
                 elif fa:
                     lo, hi = max(fa[0][0], fb[0][0]), min(fa[-1][0], fb[-1][0])
                     if sc['pastify']:
-                        lo = max(lo, sg.horizon(sc['ast']) * common.DENSE_TICK)      # warm-up outputs are not specified (C03)
+                        # warm-up outputs are not specified (C03); inside the F08 region: until the warm-up left every memory
+                        lo = max(lo, (sg.horizon(sc['ast']) + common.warmup_extra(sc['ast'])) * common.DENSE_TICK)
                     if fa[0][0] != fb[0][0] or fa[-1][0] != fb[-1][0]:
                         bad = 'span'
                     elif lo <= hi:
@@ -339,7 +340,7 @@ def run(sc):
                         d = M.state_digest(m_)
                         if d:
                             r.states.add(d)
-                    if sc['pastify'] and i < sg.horizon(sc['ast']):
+                    if sc['pastify'] and i < sg.horizon(sc['ast']) + common.warmup_extra(sc['ast']):
                         continue      # warm-up of a pastified monitor: outputs before the horizon are not specified (C03)
                     if not eqn(a, b):
                         r.violate('modular-equals-inlined', modular=md, inlined=idesc, data=sc['data'], step=i, got=a, want=b)
